@@ -10,6 +10,7 @@ import (
 
 	"github.com/pdok/texel/geomhelp"
 	"github.com/pdok/texel/pointindex"
+	"github.com/pdok/texel/verifhook"
 
 	"github.com/pdok/texel/mapslicehelp"
 	"github.com/tobshub/go-sortedmap"
@@ -537,6 +538,7 @@ func kmpDeduplicate(ring [][2]float64) [][2]float64 {
 	// walk through ring until a step back is taken, then identify how many steps back are taken and search for repeats
 	visitedPoints := [][2]float64{}
 	for i := 0; i < ringLen; {
+		verifhook.Tick("kmpDeduplicate")
 		vertex := ring[i]
 		// not a step back, continue
 		if len(visitedPoints) <= 1 || visitedPoints[len(visitedPoints)-2] != vertex {
@@ -566,6 +568,7 @@ func kmpDeduplicate(ring [][2]float64) [][2]float64 {
 		k := 0
 		corpus := ring[start:min(end, ringLen)]
 		for {
+			verifhook.Tick("kmpCorpus")
 			stop := false
 			// check if (additional) corpus contains a point that is not in segment
 			for _, vertex := range corpus[k:] {
@@ -643,6 +646,7 @@ func kmpSearchAll(corpus, find [][2]float64) []int {
 	matches := []int{}
 	offset := 0
 	for {
+		verifhook.Tick("kmpSearchAll")
 		match := kmpSearch(corpus, find)
 		if match == len(corpus) {
 			// no match found
@@ -665,6 +669,7 @@ func kmpSearch(corpus, find [][2]float64) int {
 	table := make([]int, max(len(corpus), 2))
 	kmpTable(find, table)
 	for m+i < len(corpus) {
+		verifhook.Tick("kmpSearch")
 		if find[i] == corpus[m+i] {
 			if i == len(find)-1 {
 				return m
@@ -688,6 +693,7 @@ func kmpTable(find [][2]float64, table []int) {
 	pos, cnd := 2, 0
 	table[0], table[1] = -1, 0
 	for pos < len(find) {
+		verifhook.Tick("kmpTable")
 		switch {
 		case find[pos-1] == find[cnd]:
 			cnd++
